@@ -29,6 +29,7 @@ class BDD:
         self.cache = {}
         self.names = {}                 # var -> (symbol, bit)
         self.rank = {}                  # symbol name -> rank
+        self.limit = 3000000            # node budget: exceeding it is "undecided", never a verdict
 
     # -- variables ---------------------------------------------------------------
     def var_of(self, sym, bit):
@@ -49,6 +50,8 @@ class BDD:
         n = self.uniq.get(k)
         if n is None:
             n = len(self.node)
+            if n > self.limit:
+                raise Unsupported('BDD node budget exceeded')
             self.node.append(k)
             self.uniq[k] = n
         return n
